@@ -181,7 +181,11 @@ def run(chk, tier, seed, replay):
     chk.cov["distinct_nontrivial"] += nontriv
     # ---------------- (b) rustc: sufficiency + non-excess
     mods = []
+    sel = vlib.cap_cases(cases.keys(), seed, 6000 if tier == "quick" else 20000)
+    chk.notes["rustc_compiled_cap"] = len(sel)
     for k, (c, doc, impl) in cases.items():
+        if k not in sel:
+            continue
         if tier == "quick" and not replay and vlib.seeded_pick(k, seed, 3) != 0 and not c["uses"]:
             continue
         item, tys, params = built[k]
